@@ -50,7 +50,8 @@ ASSUMPTIONS = [
     "branch behind |det| < mjMINVAL; capsule-box: exact sphere-box contact of a sphere on the capsule axis while the axis segment "
     "meets the box; box-box: gap along one of the 15 axes = largest separating-axis gap < distance; plane-capsule: frame = (normal; "
     "(1,0,0); cross)), or the engine's own branch condition holds with its constants and a counterfactual engine run is right "
-    "(capsule-box: D^2 >= margin + 2*sizes and mj_geomDistance with a larger distmax returns the truth; sub-0.2mm capsule-box: "
+    "(box-box face substitution: normal = face axis, best axis = edge-cross axis within 0.99 of it, face gap inside the code's 5 % "
+    "window, dist = along-axis surface gap; capsule-box: D^2 >= margin + 2*sizes and mj_geomDistance with a larger distmax returns the truth; sub-0.2mm capsule-box: "
     "skipped edge pair with det < mjMINVAL and the same pose scaled x1000 has no violation), or (native GJK) centres closer than "
     "ccd_tolerance and distance exactly 0 / true distance within 2*ccd_tolerance of zero (of the margin, for the inflated contact "
     "path) and the failed comparison is contact-vs-mj_geomDistance or argument-order symmetry. Anything else is a VIOLATION",
@@ -448,6 +449,7 @@ LISTED = {
     "box-box-separated-vertex-features": ("no-contact-although-distance-below-margin", "contact-dist-differs-from-true-distance",
                                           "geomDistance-differs-from-contact-dist", "contact-normal-does-not-realise-distance",
                                           "contact-pos-not-between-surfaces"),
+    "box-box-separated:face-axis-preferred-within-5pct": ("contact-normal-does-not-realise-distance",),
     "ccd-coincident-centres": ("geomDistance-differs-from-true-distance", "geomDistance-differs-from-contact-dist"),
     "ccd-touching-within-tolerance": ("geomDistance-differs-from-contact-dist", "geomDistance-not-symmetric"),
 }
@@ -633,6 +635,20 @@ def build_mechanisms(P, S, A, B, obs, ref, distmax, mg, scale, ext, tolc, tolg, 
                 return okc() and okg()
             return okc()
         out.append(("box-box-separated-vertex-features", test))
+
+    # -- box-box separated inside the margin, face substitution: findings/C13-box-box-separated-vertex-features.md (second mechanism)
+    if isbox and 0 < ref["dist"] < mg and con:
+        # mjc_BoxBox reports a FACE axis instead of the best (edge-cross) axis when the face gap is within 5 % of the best gap and the
+        # axes are within ~8 degrees.  For separated boxes the closest direction is unique, so this is an error of up to ~5 % in the
+        # normal / dist.  Confirmed from the engine's output: normal = a face axis, best axis = an edge-cross axis within 0.99 of it,
+        # gap(normal) inside the code's 5 % window below the best gap, contact dist = along-that-axis surface gap
+        def okf_():
+            k0 = con[int(np.argmin([k["dist"] for k in con]))]
+            ok, _, _ = mech.box_face_axis_preferred(A, B, k0["dist"], k0["frame"][0], k0["pos"], max(1e-9 * scale, 1e-12))
+            if ok:
+                P.count("poses_box-box-separated:face-axis-preferred-within-5pct")
+            return ok
+        out.append(("box-box-separated:face-axis-preferred-within-5pct", lambda chk: once("bb_face", okf_)))
 
     # -- pairs whose mj_geomDistance (box-box) or contacts as well (pairs without analytic collider) come from the native GJK/EPA
     if (isbox or ref is None) and A.kind != cx.PLANE:
